@@ -268,6 +268,12 @@ impl<'a> SymbolicCompiler<'a> {
         cb.before('continue;', '''proof { lemma_arm_bin::<EF>(t0, tasks@, ns0, key, *node); }''', nth=n_)
     cb.bind_tail('res_', 'proof { assert(ns =~= seq![*expr]); }')
     u.emit(cb)
+    from vf.unit import pull_work_helpers
+    wh_ = pull_work_helpers(u, [cb], 'SymbolicExpressionExt<EF>', '')
+    if wh_:
+        u.text("}\nimpl<'a, EF: FieldX> Work<'a, SymbolicExpressionExt<EF>, NodeKey> {")
+        for h_ in wh_:
+            u.emit(h_)
     u.text('''}
 pub proof fn lemma_stack_push<F: Field>(a: &CircuitBuilder<F>, b: &CircuitBuilder<F>, lv: LeafVals<F>, st: Seq<ExprId>, ns: Seq<SymbolicExpressionExt<F>>, id: ExprId, n: SymbolicExpressionExt<F>)
     requires b.extends(a), stack_ok::<F>(a, lv, st, ns), b.has(id), b.val(id) == den(lv, n)
